@@ -18,7 +18,7 @@ ID = "C18"
 COQ_TARGETS = ["Properties/C18.vo"]
 MODEL_TARGETS = ["Model/Sampling.vo"]
 IMPORTS = "From Ka Require Import Model.Sampling.\nOpen Scope string_scope.\nOpen Scope Q_scope.\n"
-LEVEL = "partial"
+LEVEL = "proof"
 FUEL = 400
 ALPHA = 1e-9
 U_TOL = Fraction(1, 10 ** 9)      # a discrete sample may sit on the other side of a cdf jump only if u is this close to it
@@ -754,7 +754,10 @@ DKW_TIE = {"Bernoulli": [0], "UniformInt": [2, 4], "Binomial": [3], "Poisson": [
 def gen_direct_tasks(tier, seed):
     tasks = []
     nsup = 2000 if tier == "quick" else 50000
-    laws = all_laws(VM_PARAMS) + all_laws(EXT_PARAMS) + [("UniformInt", 10 ** 15, 10 ** 15 + 5), ("UniformInt", 10 ** 17 + 1, 10 ** 17 + 7)]
+    laws = all_laws(VM_PARAMS) + all_laws(EXT_PARAMS) + [("UniformInt", 10 ** 15, 10 ** 15 + 5), ("UniformInt", 10 ** 17 + 1, 10 ** 17 + 7),
+                                                          # many trials with an extreme probability (a normal approximation would leave 0..n)
+                                                          ("Binomial", 2000, 0.0005), ("Binomial", 1500, 0.999), ("Binomial", 1001, F_(1, 2)),
+                                                          ("Binomial", 5000, F_(1, 5000)), ("Binomial", 1200, F_(1199, 1200))]
     for i, law in enumerate(laws):
         n = nsup if not (law[0] == "Binomial" and law[1] >= 10) and not (law[0] == "Poisson" and law[1] >= 20) else max(200, nsup // 10)
         tasks.append(dict(kind="support", law=law, n=n, seed=seed * 1000 + i))
@@ -769,6 +772,8 @@ def gen_direct_tasks(tier, seed):
     ndkw = 20000 if tier == "quick" else 200000
     for i, law in enumerate(DKW_LAWS + (DKW_MORE if tier != "quick" else [])):
         tasks.append(dict(kind="dkw", law=law, n=ndkw, seed=seed * 1000 + 700 + i, tie_at=DKW_TIE[law[0]]))
+    # a many-trials Binomial with mean 1: the distribution (not only the support) must be the one P() reports
+    tasks.append(dict(kind="dkw", law=("Binomial", 1200, F_(1, 1200)), n=ndkw // 4, seed=seed * 1000 + 799, tie_at=[1]))
     return tasks
 
 
